@@ -111,6 +111,19 @@ def check_field(exp, got, spec):
     return False
 
 
+def printed_digits_ok(text, v, got):
+    """'to the printed digits', literally and without Python's % operator: the decimal printed in the
+    field's own columns is within half a unit of its last printed digit of the value written (exact
+    rationals), and the value parsed is that decimal (correctly rounded to a double)."""
+    from decimal import Decimal
+    from fractions import Fraction
+    try: d = Decimal(text.strip())
+    except Exception: return False
+    if not d.is_finite(): return False
+    unit = Fraction(10) ** d.as_tuple().exponent
+    return abs(Fraction(d) - Fraction(v)) * 2 <= unit and isinstance(got, float) and got == float(d)
+
+
 def classify(spec, v, what):
     w, p, typ = parse_spec(spec)
     if w < 0: return 'preprocess_specification:negative-width'
@@ -127,7 +140,7 @@ def sweep(ctx, thorough=False, only=None):
     """only: optional set of (table, record) to restrict to.  Returns number of cases."""
     tmpdir = tempfile.mkdtemp(prefix='c02_')
     n = 0
-    dist = {'raised': 0, 'fits': 0, 'too_wide': 0, 'none': 0}
+    dist = {'raised': 0, 'fits': 0, 'too_wide': 0, 'none': 0, 'printed_digits_checked': 0}
     try:
         reals = real_lattice(ctx.rng, thorough)
         for tname, table, rf in load_tables():
@@ -176,6 +189,14 @@ def sweep(ctx, thorough=False, only=None):
                             what = 'own-field-wrong' if j == i else 'neighbour-corrupted'
                             key = classify(spec if not negw else [s for s in specs if parse_spec(s)[0] < 0][0], v, what)
                             ctx.failure('field-lattice', key, dict(case, line=line, wrong_field=j), repr(g), repr(exp))
+                        elif v is not None and not negw and parse_spec(spec)[2] in 'ef':
+                            # value-level clause for reals, evaluated on the columns of the field itself
+                            pos = sum(abs(parse_spec(s2)[0]) for s2 in specs[:i])
+                            text = line[pos: pos + abs(parse_spec(spec)[0])]
+                            dist['printed_digits_checked'] += 1
+                            if not printed_digits_ok(text, v, got[i]):
+                                ctx.failure('field-lattice', classify(spec, v, 'real-not-to-printed-digits'), dict(case, line=line, wrong_field=i),
+                                            '%r read as %r' % (text, got[i]), 'within half a unit of the last printed digit of %r' % (v,))
             f.close()
     finally:
         import shutil
